@@ -20,10 +20,10 @@ const (
 
 // Decision is one resolved choice on a path.
 type Decision struct {
-	Kind     DecKind  `json:"k"`
-	Site     string   `json:"s"`
-	Taken    int64    `json:"t"`
-	Excluded []int64  `json:"x,omitempty"` // only on the last (pending) decision of a work item
+	Kind     DecKind `json:"k"`
+	Site     string  `json:"s"`
+	Taken    int64   `json:"t"`
+	Excluded []int64 `json:"x,omitempty"` // only on the last (pending) decision of a work item
 }
 
 // WorkItem is a path prefix plus a model satisfying its path condition.
@@ -33,12 +33,12 @@ type WorkItem struct {
 }
 
 type Violation struct {
-	Label   string            `json:"label"`
-	Kind    string            `json:"kind"` // assert | panic | deadlock | race
-	Site    string            `json:"site"`
-	Msg     string            `json:"msg"`
-	Model   map[string]uint64 `json:"model"`
-	Known   []string          `json:"known,omitempty"` // ids of known-finding regions containing this model
+	Label string            `json:"label"`
+	Kind  string            `json:"kind"` // assert | panic | deadlock | race
+	Site  string            `json:"site"`
+	Msg   string            `json:"msg"`
+	Model map[string]uint64 `json:"model"`
+	Known []string          `json:"known,omitempty"` // ids of known-finding regions containing this model
 }
 
 type Observation struct {
@@ -58,8 +58,8 @@ type PathResult struct {
 	Covers     []string          `json:"covers,omitempty"`
 	Obs        []Observation     `json:"obs,omitempty"`
 	Instrs     int64             `json:"instrs"`
-	Asserts    int               `json:"asserts"`  // assertion obligations discharged (unsat)
-	AssertQ    int               `json:"assertq"`  // assertion queries sent
+	Asserts    int               `json:"asserts"` // assertion obligations discharged (unsat)
+	AssertQ    int               `json:"assertq"` // assertion queries sent
 	Hashes     int               `json:"hashes"`
 	Inputs     []string          `json:"inputs,omitempty"`
 	KnownSeen  []string          `json:"known_seen,omitempty"`
@@ -92,9 +92,9 @@ type pathState struct {
 	model map[string]uint64
 	eval  *smt.Evaluator
 
-	prefix []Decision
-	pos    int
-	trace  []Decision
+	prefix   []Decision
+	pos      int
+	trace    []Decision
 	newItems []WorkItem
 
 	nameCount map[string]int
@@ -116,12 +116,12 @@ type pathState struct {
 	assertQ  int
 	unknowns int
 
-	params map[string]int64
+	params       map[string]int64
 	noPanicDepth int
-	crossCheck bool
-	funcs map[string]int64
-	pcTerms []*smt.Term
-	obsPending []pendingObs
+	crossCheck   bool
+	funcs        map[string]int64
+	pcTerms      []*smt.Term
+	obsPending   []pendingObs
 }
 
 // G is the state of the path being executed (one path at a time per process).
